@@ -725,6 +725,48 @@ def run_own_tables(shard, ctx):
                         present = True
                         hist.append("add:%02X" % value_now)
                 ctx.count("own_table_histories")
+            # a table for a unit with a quirk (the entry carries another code of the same group and shifted service actions), used,
+            # dropped and collected; then a table with the standard entries, most likely at the address the dead one had: the
+            # standard code and service action go out
+            import gc
+
+            for rep in range(6):
+                quirk_oc = OpCode(key, orig.value ^ 0x01, {k2: (v2 + 14) & 0x1F for k2, v2 in sa.items()})
+                qt = Enum({k2: (quirk_oc if k2 == key else getattr(std, k2)) for k2 in std.keys})
+                qdev = harness.Recorder(qt)
+                a = dict(required_args(c, rng))
+                if "blocksize" in a and c.xfer != "ata":
+                    a["blocksize"] = 512
+                try:
+                    harness.facade_call(c, harness.make_facade(qdev, 512), DO.fresh(a) if c.custom else dict(a))
+                except Exception:  # noqa: BLE001
+                    pass
+                del qt, qdev, quirk_oc
+                gc.collect()
+                tbl = Enum({k2: getattr(std, k2) for k2 in std.keys})
+                dev = harness.Recorder(tbl)
+                ctx.case(("own-table-after-dead-one", c.facade, setname, rep), True)
+                ctx.count("own_table_calls")
+                try:
+                    harness.facade_call(c, harness.make_facade(dev, 512), DO.fresh(a) if c.custom else dict(a))
+                    err = None
+                except Exception as e:  # noqa: BLE001
+                    err = e
+                wit = {"method": c.facade, "cmd": c.name, "table_built_from": setname, "entry": key, "history": ["a table with a quirk entry used, dropped and collected", "a new table with the standard entries"], "args": a}
+                if len(dev.calls) != 1:
+                    ctx.fail("C13:%s.own_table.execute_count_%d" % (c.facade, min(len(dev.calls), 3)), "%s on a new table with the standard entries: %d commands sent (%s)" % (c.facade, len(dev.calls), err), wit, exc=err)
+                    continue
+                chk = dict(harness.defaults(c))
+                chk.update(a)
+                if c.custom:
+                    chk["_outlen"] = len(dev.calls[0][0].dataout)
+                chk.update(c.facade_fixed)
+                if dev.calls[0][0].cdb[0] != orig.value:
+                    ctx.fail("C13:%s.own_table.opcode" % c.facade, "cdb[0]=%02Xh on a new table whose %s entry is the standard %02Xh (a table with a quirk entry was used and dropped before)"
+                             % (dev.calls[0][0].cdb[0], key, orig.value), wit)
+                    continue
+                for mech, msg in harness.check_cdb(c, dev.calls[0][0].cdb, chk):
+                    ctx.fail("C13:%s.own_table.cdb.%s" % (c.facade, mech), "%s on a new table with the standard entries (after a quirk table was dropped): %s" % (c.facade, msg), dict(wit, cdb=bytes(dev.calls[0][0].cdb)))
 
 
 def run_transport(shard, ctx):
